@@ -657,16 +657,25 @@ impl<'a> VisitMut for Rw<'a> {
             }
             n += 1;
         }
+        let k = self.diverge;
+        self.diverge += 1;
+        let lit = LitInt::new(&k.to_string(), Span::call_site());
         if closure_is_diverging(&c.body) {
             let body = (*c.body).clone();
-            let k = self.diverge;
-            self.diverge += 1;
-            let lit = LitInt::new(&k.to_string(), Span::call_site());
             *c.body = parse_quote!({ __vx_diverge!(#lit); #body });
             self.site("T5-diverge");
             return;
         }
         visit_mut::visit_expr_closure_mut(self, c);
+        // every other closure gets an anchor where a spec pack may put `requires/ensures`
+        let body = (*c.body).clone();
+        *c.body = match body {
+            Expr::Block(b) if b.attrs.is_empty() && b.label.is_none() => {
+                let stmts = &b.block.stmts;
+                parse_quote!({ __vx_closure!(#lit); #(#stmts)* })
+            }
+            other => parse_quote!({ __vx_closure!(#lit); #other }),
+        };
     }
 
     fn visit_expr_for_loop_mut(&mut self, f: &mut ExprForLoop) {
@@ -730,6 +739,11 @@ impl<'a> VisitMut for Rw<'a> {
                     let args = &mc.args;
                     self.site("T2-handle");
                     replacement = Some(parse_quote!(#x.#name #tf (#args)));
+                } else if (m == "unwrap" && mc.args.is_empty()) || (m == "expect" && mc.args.len() == 1) {
+                    // T4: partial-correctness reading of a panic
+                    let r = &mc.receiver;
+                    self.site("T4-unwrap");
+                    replacement = Some(parse_quote!(#r.vx_unwrap()));
                 } else if m == "require_auth" && mc.args.is_empty() {
                     let env = self.env_expr();
                     let a = &mc.receiver;
@@ -838,7 +852,7 @@ impl<'a> Rw<'a> {
     fn rewrite_macro(&mut self, mac: &Macro) -> Option<Expr> {
         let name = mac.path.segments.last().unwrap().ident.to_string();
         match name.as_str() {
-            "panic_with_error" | "panic" | "unreachable" | "symbol_short" | "__vx_loop" | "__vx_iter" | "__vx_diverge" => None,
+            "panic_with_error" | "panic" | "unreachable" | "symbol_short" | "matches" | "__vx_loop" | "__vx_iter" | "__vx_diverge" | "__vx_closure" => None,
             "vec" => {
                 // soroban vec![e, a, b, ...] -> Vec::from_array(e, [a, b, ...]) with rewritten elements
                 let parser = syn::punctuated::Punctuated::<Expr, Token![,]>::parse_terminated;
@@ -865,7 +879,7 @@ impl<'a> Rw<'a> {
                     }
                 }
             }
-            "assert" | "debug_assert" | "assert_eq" | "matches" | "format" | "log" => {
+            "assert" | "debug_assert" | "assert_eq" | "format" | "log" => {
                 self.errors.push(format!("unsupported macro {}!", name));
                 None
             }
@@ -1141,7 +1155,7 @@ fn main() {
             "generics": clean(&ts(&f.sig.generics.params)),
             "where": f.sig.generics.where_clause.as_ref().map(|w| clean(&ts(w))),
             "params": params, "ret": ret, "effectful": eff, "env_params": envs.iter().collect::<Vec<_>>(),
-            "body": body, "n_loops": rw.loops, "n_diverge": rw.diverge,
+            "body": body, "n_loops": rw.loops, "n_closures": rw.diverge,
             "src_sha": sha(&f.src_text), "out_sha": sha(&body), "rule_sites": rw.sites,
             "callees": calls[&f.key], "unknown_env_calls": unknown.get(&f.key),
         }));
